@@ -401,6 +401,50 @@ def rule_idxbound(P, N=3, hiddens=(0, 1), positions=None, flow=True) -> RuleResu
                 ok = False
                 res.fail(f'{fi.fq}:positional-reference', 'idxbound:ORDER BY:repeated', f'ORDER BY 1, 2, 1 DESC must order like ORDER BY 1, 2 '
                          f'(a key listed again cannot decide anything); the order specification is {[(i, show(d)) for i, d in spec]}', loc(fi))
+    # a key given by name is the output column of that name - also when the table has a column of the same name (an alias may
+    # re-use one: `abs(number) AS number ... ORDER BY number` orders by the output)
+    if N >= 3:
+        tg, attrs = _targets(N, 0)
+        SP, REF, ORD = Sym('SPEC_BY_NAME'), Sym('COLUMN_REFERENCE'), Sym('ORDERING')
+        attrs[(SP, 'column')] = REF
+        attrs[(SP, 'ordering')] = ORD
+        attrs[(REF, 'name')] = 'b'
+        attrs[(T('attr', (SELF, 'table')), 'columns')] = SList([('b', Sym('TABLE_COLUMN_b')), ('z', Sym('TABLE_COLUMN_z'))], kind='dict')
+
+        def on_attr_n(base, attr, ex):
+            return attrs.get((base, attr), NotImplemented)
+
+        def on_isinstance_n(v, c, ex):
+            cs = gname(c)
+            if cs.endswith('int'):
+                return type(v) is int
+            if cs.endswith('Column'):
+                return v == REF
+            return NotImplemented
+
+        def on_call_n(fname, fval, recv, args, kwargs, ex, node):
+            f = str(fname).split('.')[-1]
+            if f == '_compile':
+                return Sym('NEWLY_COMPILED_EXPRESSION')
+            if f == 'is_aggregate':
+                return False
+            if f == '_check_aggregates':
+                return None
+            if f == 'EvalTarget':
+                return T('new', ('EvalTarget', tuple(args)))
+            return NotImplemented
+        for p in Engine(P, on_attr=on_attr_n, on_isinstance=on_isinstance_n, on_call=on_call_n).paths(
+                fi, {'self': SELF, fi.params[1]: SList([SP]), fi.params[2]: SList(tg)}):
+            spec = None
+            if p.outcome == 'return' and isinstance(p.value, T) and p.value.op == 'tuple' and len(p.value.args) == 2:
+                sv = p.value.args[1]
+                if isinstance(sv, SList) and not sv.opaque_tail and len(sv.items) == 1 and isinstance(sv.items[0], T) and sv.items[0].op == 'tuple':
+                    spec = sv.items[0].args[0]
+            if spec != 1:
+                ok = False
+                res.fail(f'{fi.fq}:positional-reference', 'idxbound:ORDER BY:name', f'ORDER BY b, where b is the name of the second output column '
+                         f'and also a column of the table: the key is the output column (index 1); resolved to '
+                         f'{spec if spec is not None else p.outcome + " " + show(p.value)[:60]}', loc(fi))
     if ok:
         res.ok({'clause': 'ORDER BY', 'positions': list(POS), 'targets': N, 'invisible_targets': list(hiddens)})
     # PIVOT BY: same domain; the other reference is a valid, different, grouped column
@@ -1389,4 +1433,59 @@ def rule_fromand(P) -> RuleResult:
                              f'operator); got `{show(v)[:100]}`', loc(fi))
     if ok:
         res.ok({'function': fi.fq, 'cases': 4, 'row_condition': 'FROM AND WHERE, each as one operand'})
+    return res
+
+
+# ----------------------------------------------------------------------
+# R-ACCESSNODE (C04, C17): attribute access and subscripts build the node of their operand with the announced type of the field
+
+def rule_accessnode(P) -> RuleResult:
+    """`x.attr` on a structured value is EvalGetter(x, the column of that name of x's structure, that column's datatype): the datatype
+    announced is the Python type of the field (what the values are instances of and what numberify and the renderers dispatch on),
+    not its structure alias; `x[key]` on a dict is EvalGetItem(x, key)."""
+    res = RuleResult('R-ACCESSNODE')
+    res.exhaustive = True
+    NODE, OPND = Sym('AST_NODE'), Sym('C_OPERAND')
+    STRUCT, GETTER = Sym('STRUCTURE_OF_OPERAND'), Sym('FIELD_COLUMN')
+    fi = _method(P, '_attribute')
+
+    def on_attr(base, attr, ex):
+        if base == NODE and attr == 'name':
+            return 'field'
+        if base == NODE and attr == 'key':
+            return 'key'
+        if base == OPND and attr == 'dtype':
+            return Sym('PYTHON_TYPE_OF_OPERAND')
+        return NotImplemented
+
+    def on_call(fn, fv, rc, a, k, ex, nd):
+        full = str(fn)
+        f = full.split('.')[-1]
+        if f == '_compile':
+            return OPND
+        if full.endswith('ALIASES.get'):
+            # every Python type has a structure alias in this scenario: using the alias where the type is due shows
+            return STRUCT if a and a[0] == Sym('PYTHON_TYPE_OF_OPERAND') else T('structure-alias-of', (a[0],))
+        if f == 'issubclass':
+            return True
+        if full.endswith('columns.get') and rc == _attr(STRUCT, 'columns'):
+            return GETTER
+        if f in ('EvalGetter', 'EvalGetItem'):
+            return T('new', (f, tuple(a), tuple(k)))
+        return NotImplemented
+    for p in Engine(P, on_attr=on_attr, on_call=on_call).paths(fi, {'self': SELF, fi.params[1]: NODE}):
+        want = T('new', ('EvalGetter', (OPND, GETTER, _attr(GETTER, 'dtype')), ()))
+        if p.decisions or p.outcome != 'return' or p.value != want:
+            res.fail(fi.fq, 'accessnode:getter', f'`x.field` must compile to EvalGetter(x, the field column of x\'s structure, that column\'s '
+                     f'datatype); it gives `{show(p.value)[:140] if p.outcome == "return" else p.outcome}`', loc(fi))
+        else:
+            res.ok({'handler': fi.fq, 'node': 'EvalGetter(operand, field column, field column datatype)'})
+    fs = _method(P, '_subscript')
+    for p in Engine(P, on_attr=on_attr, on_call=on_call).paths(fs, {'self': SELF, fs.params[1]: NODE}):
+        want = T('new', ('EvalGetItem', (OPND, 'key'), ()))
+        if p.decisions or p.outcome != 'return' or p.value != want:
+            res.fail(fs.fq, 'accessnode:getitem', f'`x[key]` on a dict must compile to EvalGetItem(x, key); it gives '
+                     f'`{show(p.value)[:140] if p.outcome == "return" else p.outcome}`', loc(fs))
+        else:
+            res.ok({'handler': fs.fq, 'node': 'EvalGetItem(operand, key)'})
     return res
